@@ -106,4 +106,28 @@ def generate(repo):
     txt = " ".join(show_stmt(s) for s in body)
     ok = "if (((rule->opcode >= CTO_Space) && (rule->opcode < CTO_UpLow))) dots->definitionRule = ruleOffset;" in txt
     out.append("Definition back_last_definition_wins : bool := %s.\n" % ("true" if ok else "false"))
+    out.append(passfind_facts(repo))
+    return "".join(out)
+
+
+def passfind_facts(repo):
+    """passFindCharacters: which literal of a multipass test a rule is chained by (its length orders the pass chains)"""
+    import re
+    src = source(repo, "compileTranslationTable.c")
+    body = cparse.find_function(src, "passFindCharacters")
+    body = body if isinstance(body, str) else body[1]
+    flat = " ".join(body.split())
+    m = re.search(r"case pass_string: case pass_dots: \{ int count = instructions\[IC \+ 1\]; IC \+= 2; if \(([^()]*)\) \{ "
+                  r"\*characters = &instructions\[IC \+ lookback\]; \*length = ([^;]*); return 1; \} else \{ lookback -= count; \} "
+                  r"IC \+= count; continue; \}", flat)
+    if not m:
+        raise cparse.ParseError("passFindCharacters: literal case not recognised")
+    m2 = re.search(r"case pass_lookback: lookback \+= instructions\[IC \+ 1\]; IC \+= 2; continue;", flat)
+    if not m2:
+        raise cparse.ParseError("passFindCharacters: look-back case not recognised")
+    to = cparse.ToZ({"count": "count", "lookback": "lookback"})
+    out = ["\n(* passFindCharacters: a literal of `count' elements is taken when this holds, with this length; otherwise the\n"
+           "   pending look-back shrinks by count; a look-back instruction adds its operand to the pending look-back *)\n"]
+    out.append("Definition passfind_takes (count lookback : Z) : bool := %s.\n" % to.b(cparse.parse_expr(m.group(1))))
+    out.append("Definition passfind_length (count lookback : Z) : Z := %s.\n" % to.z(cparse.parse_expr(m.group(2))))
     return "".join(out)
